@@ -211,7 +211,11 @@ func (f *FBaseProcessorFunction) SendError(fctx FContext, oprot *FProtocol, kind
 
 func (f *FBaseProcessorFunction) sendError(ctx context.Context, fctx FContext, oprot *FProtocol, kind int32, method, message string) error {
 	err := thrift.NewTApplicationException(kind, message)
-	f.writeException(ctx, fctx.ResponseHeaders(), oprot, method, err)
+	if werr := f.writeException(ctx, fctx.ResponseHeaders(), oprot, method, err); werr != nil {
+		// An error reply that does not fit is an oversize response like
+		// any other: the caller is told so instead of being left to time out.
+		f.trapError(ctx, fctx, oprot, method, werr)
+	}
 	return err
 }
 
